@@ -321,3 +321,7 @@ Ltac box_goals tac :=
   | |- Rabs _ <= _ => tac
   | |- _ /\ _ => split; box_goals tac
   end.
+
+(* the extended-real layer (zero-density current points / proposals, on C05's special-value model of mh_step)
+   is required here only so that the targeted build of the check compiles it; nothing above uses it *)
+From LV Require Analytic.IWLSExt.
